@@ -4,7 +4,10 @@ Engine E1 (tasks): histories of length <= 10 (short ones favoured) over one real
 outer Deferred and up to three inner Deferreds: callback / errback / cancel on
 the outer, "add a callback that returns a new unfired inner Deferred" (to the outer
 or to an earlier inner one, so chains of depth 3+ form), fire or cancel an inner.  Every Deferred has a tape-chosen canceller in {none, does
-nothing, fires callback, fires errback, raises}.  Operations stay enabled after
+nothing, fires callback, fires errback, raises}.  Wherever a failure is offered (errback operations, the errback-firing
+canceller) the form is tape-chosen among the documented ones: errback(exception), errback(Failure), argument-less
+errback() from inside an except block.  Deferred debugging (defer.setDebugging) is a per-run configuration value (on
+in a quarter of the runs, restored afterwards).  Operations stay enabled after
 the Deferred has fired (that is the point: second results, late results after a
 canceller-less cancel, cancel of a fired Deferred).  Oracle: the reference state
 machine in models/deferred.py (one result; suppress-one-after-cancel; canceller
@@ -14,6 +17,7 @@ after every operation: AlreadyCalledError raised or not, canceller call counts,
 recorded callback inputs, result / pending callbacks of every Deferred.
 """
 from twisted.internet import defer
+from twisted.python.failure import Failure
 
 from models.deferred import Interp, AlreadyCalled, CancellerRaised, CANCELLED
 from props._defer_util import Boom, absres, real_view
@@ -30,9 +34,16 @@ COMPONENTS = {"real": ["twisted.internet.defer.Deferred (callback/errback/cancel
               "stub": ["order of the caller's operations (tape)"]}
 RULE = ("run = history of 2..10 tape-chosen operations {callback, errback, cancel, add callback returning a new unfired inner Deferred, "
         "fire inner, cancel inner} on one outer Deferred (+ up to 3 inners), cancellers drawn from {none, noop, fires callback, fires errback, raises}; "
+        "every failure is offered in a tape-chosen documented form {errback(exception), errback(Failure), bare errback() inside an except block}; "
+        "Deferred debugging (defer.setDebugging) is on in a quarter of the runs (per-run knob, restored in a finally and in cleanup()); "
         "non-trivial = a cancel was issued AND (a result was offered to an already-fired Deferred OR the outer waited on an inner); "
         "abstract_states = distinct (canceller kinds, history) of length <= 8 reached")
 ASSUMPTIONS = ["operations are issued from outside callbacks (cancellers fire only the Deferred they are given)",
+               "the statement does not depend on how the failure is handed to errback() nor on the Deferred debugging flag: the same "
+               "reference machine is used for every errback form and with debugging on or off (the text of AlreadyCalledError, which "
+               "debugging extends with creation/invocation stacks, is never inspected or logged)",
+               "the argument-less errback() is only used inside an except block (without a current exception it documents "
+               "NoCurrentExceptionError, which is outside this statement)",
                "a canceller that raises: the statement does not say whether cancel() propagates the exception and leaves the Deferred "
                "unfired, or errbacks with CancelledError; both are accepted (anything else is a violation)"]
 
@@ -40,7 +51,43 @@ class CancellerBoom(Exception):
     pass
 
 
+# the documented ways of handing a failure to errback(): an exception instance, a ready-made Failure, or no argument at all
+# from inside an except block ("None to create a Failure instance from the current exception state")
+ERRBACK_FORMS = [("exception", 4), ("failure", 2), ("bare", 3)]
+
+
+def errback_with(d, form, tag):
+    """Offer the failure Boom(tag) to d in one of the documented forms."""
+    if form == "exception":
+        d.errback(Boom(tag))
+    elif form == "failure":
+        d.errback(Failure(Boom(tag)))
+    else:
+        try:
+            raise Boom(tag)
+        except Boom:
+            d.errback()
+
+
+def cleanup(sim):
+    # Deferred debugging is process-wide state: never let a run (however it ended) leave it switched on
+    defer.setDebugging(False)
+
+
 def run(sim):
+    # Deferred debugging (defer.setDebugging; what `trial --debug-stacktraces` / `twistd --debug` switch on) is a per-run
+    # configuration value: the protocol of the statement holds with it on or off.  The creation / invocation stacks it
+    # records never reach the trace (only abstract names and verdicts are logged).
+    debug = sim.draw_weighted([(False, 3), (True, 1)], "debug")   # recording stacks is slow: a quarter of the runs
+    was = defer.getDebugging()
+    defer.setDebugging(debug)
+    try:
+        _run(sim, debug)
+    finally:
+        defer.setDebugging(was)
+
+
+def _run(sim, debug):
     nops = sim.draw_weighted([(2, 1), (3, 2), (4, 3), (5, 3), (6, 3), (7, 3), (8, 3), (9, 1), (10, 1)], "nops")
     w_cancel = sim.draw_choice([3, 1, 5], "w_cancel")
     m = Interp()
@@ -57,6 +104,7 @@ def run(sim):
 
     def new_deferred(name):
         kind = sim.draw_weighted([(None, 3), ("noop", 2), ("callback", 1), ("errback", 1), ("raise", 1)], "canceller")
+        cform = sim.draw_weighted(ERRBACK_FORMS, "canceller-errback-form") if kind == "errback" else None
         calls[name] = 0
         if kind is None:
             mc, rc = None, None
@@ -71,7 +119,8 @@ def run(sim):
                 if kind == "callback":
                     d.callback(payload)
                 elif kind == "errback":
-                    d.errback(Boom("c%d" % payload))
+                    sim.probe("canceller_errback_" + cform)
+                    errback_with(d, cform, "c%d" % payload)
                 elif kind == "raise":
                     raise CancellerBoom(name)
         m.new(name, mc)
@@ -97,16 +146,21 @@ def run(sim):
         real[dname].addBoth(f)
 
     outer_kind = new_deferred("outer")
-    sim.config = {"nops": nops, "outer_canceller": outer_kind, "w_cancel": w_cancel}
+    sim.config = {"nops": nops, "outer_canceller": outer_kind, "w_cancel": w_cancel, "debug": debug}
     history.append("canc=%s" % outer_kind)
     add_both("outer", ("echo",))       # recorder: sees the one result the outer delivers
 
     def offer(name, how):
         """callback/errback on a Deferred that may or may not have fired already."""
         md, d = m.ds[name], real[name]
+        form = sim.draw_weighted(ERRBACK_FORMS, "errback-form") if how == "errback" else "value"
         if md.called:
             flags["refire"] += 1
             sim.probe("late_result_ignored" if md.suppress else "second_result")
+            if how == "errback":
+                sim.probe(("late_errback_" if md.suppress else "second_errback_") + form)
+            if debug:
+                sim.probe("late_result_ignored_debug" if md.suppress else "second_result_debug")
         v = fresh()
         try:
             want = m.fire(md, ("V", v) if how == "callback" else ("F", "e%d" % v))
@@ -116,17 +170,17 @@ def run(sim):
             if how == "callback":
                 d.callback(v)
             else:
-                d.errback(Boom("e%d" % v))
+                errback_with(d, form, "e%d" % v)
             got = "accepted"
         except defer.AlreadyCalledError:
             got = "AlreadyCalledError"
-        sim.event(how, name, v, want, got)
+        sim.event(how, form, name, v, want, got)
         if want == "AlreadyCalledError":
-            sim.check("second-result-raises", got == "AlreadyCalledError", "offer", "%s.%s on a fired Deferred did not raise (model: must raise)" % (name, how))
+            sim.check("second-result-raises", got == "AlreadyCalledError", "offer", "%s.%s [%s, debug=%s] on a fired Deferred did not raise (model: must raise)" % (name, how, form, debug))
         elif want == "ignored":
-            sim.check("one-late-result-ignored", got == "accepted", "offer", "%s.%s after canceller-less cancel raised AlreadyCalledError (model: silently ignored)" % (name, how))
+            sim.check("one-late-result-ignored", got == "accepted", "offer", "%s.%s [%s, debug=%s] after canceller-less cancel raised AlreadyCalledError (model: silently ignored)" % (name, how, form, debug))
         else:
-            sim.check("first-result-accepted", got == "accepted", "offer", "%s.%s on an unfired Deferred raised AlreadyCalledError" % (name, how))
+            sim.check("first-result-accepted", got == "accepted", "offer", "%s.%s [%s, debug=%s] on an unfired Deferred raised AlreadyCalledError" % (name, how, form, debug))
 
     def cancel(name):
         md, d = m.ds[name], real[name]
@@ -230,4 +284,9 @@ MUTANTS = [
     "cancel() of a fired, waiting Deferred does not forward (`self.result.cancel()` -> pass): CAUGHT (delivered-results, canceller-call-count)",
     "suppress flag also set when a canceller exists: CAUGHT (second-result-raises)",
     "late result never ignored (`if self._suppressAlreadyCalled:` -> `if False:`): CAUGHT (one-late-result-ignored)",
+    "round 4 (errback forms, debugging knob): argument-less errback() on a fired Deferred returns silently (`if fail is None: if self.called: return`): "
+    "CAUGHT (second-result-raises)",
+    "with debugging on a second result is dropped instead of raising (`raise AlreadyCalledError(extra)` -> `return`): CAUGHT (second-result-raises)",
+    "cancel() arms the one-late-result allowance only with debugging off (`_suppressAlreadyCalled = not self.debug`): CAUGHT (one-late-result-ignored)",
+    "errback(Failure instance) returns early while the allowance is armed (flag not consumed): CAUGHT (delivered-results)",
 ]
